@@ -457,7 +457,9 @@ CHECKS = {
         "technique": "deviation-bounded exhaustive fault and crash "
                      "enumeration at system-call granularity: every call of "
                      "the operation under test x {errno menu, short writes, "
-                     "kill before/after}, bound 1 (quick) / 2 (thorough)",
+                     "kill before/after}, bound 1 (quick) / 2 (thorough); "
+                     "plus a kernel-level enumeration under strace of every "
+                     "read/write system call (bound 1)",
         "text": "A harness-side seam (builtins.open -> _pyio.open, wrapped "
                 "os.* calls) makes every system call under the dataset root "
                 "a point while user-space buffering stays real. For 46 file "
@@ -478,7 +480,13 @@ CHECKS = {
                 "leaves the old version. Oracle B: a fresh reader decodes "
                 "every chunk to an acknowledged or in-flight version or "
                 "fails; never other values. Replayed prefixes must match "
-                "the recording.",
+                "the recording. A second enumeration decides the same "
+                "oracles at the kernel: the operation runs in a child "
+                "process under strace and every read- or write-class system "
+                "call on a dataset file - also those issued by C code such "
+                "as numpy.fromfile/tofile, which the seam cannot see - is "
+                "failed (EIO / ENOSPC) or preceded by SIGKILL, one "
+                "deviation per run.",
         "note": "Process-death crash model (no fsync reordering); points "
                 "are calls under the dataset root (temp buffers of the "
                 "on-disk strategy are outside); HTTP faults are explored by "
